@@ -599,6 +599,11 @@ pub(super) fn add(
         let bits = operand_storing_width(&instruction.operands()[0])?;
         let lhs = operand_load(block, &instruction.operands()[1], bits)?;
         let rhs = operand_load(block, &instruction.operands()[2], bits)?;
+        // vector forms that bad64 reports under the same mnemonic (SVE `add z1.h, z1.h, #imm`)
+        // load operands of different widths: not supported
+        if lhs.bits() != rhs.bits() {
+            return Err(unsupported());
+        }
 
         // perform operation
         let src = il::Expression::add(lhs, rhs).unwrap();
@@ -626,6 +631,11 @@ pub(super) fn adds(
         let bits = operand_storing_width(&instruction.operands()[0])?;
         let lhs = operand_load(block, &instruction.operands()[1], bits)?;
         let rhs = operand_load(block, &instruction.operands()[2], bits)?;
+        // vector forms that bad64 reports under the same mnemonic (SVE `add z1.h, z1.h, #imm`)
+        // load operands of different widths: not supported
+        if lhs.bits() != rhs.bits() {
+            return Err(unsupported());
+        }
 
         // perform operation
         let result = il::Expression::add(lhs.clone(), rhs.clone()).unwrap();
@@ -1389,6 +1399,11 @@ pub(super) fn sub(
         let bits = operand_storing_width(&instruction.operands()[0])?;
         let lhs = operand_load(block, &instruction.operands()[1], bits)?;
         let rhs = operand_load(block, &instruction.operands()[2], bits)?;
+        // vector forms that bad64 reports under the same mnemonic (SVE `add z1.h, z1.h, #imm`)
+        // load operands of different widths: not supported
+        if lhs.bits() != rhs.bits() {
+            return Err(unsupported());
+        }
 
         // perform operation
         let src = il::Expression::sub(lhs, rhs).unwrap();
@@ -1416,6 +1431,11 @@ pub(super) fn subs(
         let bits = operand_storing_width(&instruction.operands()[0])?;
         let lhs = operand_load(block, &instruction.operands()[1], bits)?;
         let rhs = operand_load(block, &instruction.operands()[2], bits)?;
+        // vector forms that bad64 reports under the same mnemonic (SVE `add z1.h, z1.h, #imm`)
+        // load operands of different widths: not supported
+        if lhs.bits() != rhs.bits() {
+            return Err(unsupported());
+        }
 
         // perform operation
         let result = il::Expression::sub(lhs.clone(), rhs.clone()).unwrap();
